@@ -251,6 +251,9 @@ func ParseSelect(statement *sqlparser.Select) (logical.Node, *OutputOptions, err
 	}
 
 	if statement.Limit != nil {
+		if statement.Limit.Offset != nil {
+			return nil, nil, errors.New("LIMIT with an offset is not supported")
+		}
 		limitExpr, err := ParseExpression(statement.Limit.Rowcount)
 		if err != nil {
 			return nil, nil, errors.Wrap(err, "couldn't parse limit")
@@ -328,6 +331,9 @@ func ParseTableExpression(expr sqlparser.TableExpr) (logical.Node, error) {
 }
 
 func ParseAliasedTableExpression(expr *sqlparser.AliasedTableExpr) (logical.Node, error) {
+	if len(expr.Partitions) > 0 {
+		return nil, errors.New("PARTITION clauses are not supported")
+	}
 	switch subExpr := expr.Expr.(type) {
 	case sqlparser.TableName:
 		name := subExpr.Name.String()
@@ -385,6 +391,9 @@ func ParseJoinTableExpression(expr *sqlparser.JoinTableExpr) (logical.Node, erro
 		return nil, errors.Wrap(err, "couldn't parse join right table expression")
 	}
 
+	if len(expr.Condition.Using) > 0 {
+		return nil, errors.New("JOIN ... USING is not supported, please use an ON predicate")
+	}
 	var joinOn *logical.Expression
 	if expr.Condition.On != nil {
 		predicate, err := ParseExpression(expr.Condition.On)
@@ -587,6 +596,9 @@ func ParseExpression(expr sqlparser.Expr) (logical.Expression, error) {
 		return logical.NewFunctionExpression(expr.Operator, []logical.Expression{left, right}), nil
 
 	case *sqlparser.FuncExpr:
+		if !expr.Qualifier.IsEmpty() {
+			return nil, errors.Errorf("qualified function names are not supported: %s.%s", expr.Qualifier.String(), expr.Name.String())
+		}
 		functionName := strings.ToLower(expr.Name.String())
 
 		arguments := make([]logical.Expression, 0)
@@ -723,6 +735,9 @@ func ParseExpression(expr sqlparser.Expr) (logical.Expression, error) {
 		}
 		return logical.NewFunctionExpression("not", []logical.Expression{childParsed}), nil
 	case *sqlparser.ComparisonExpr:
+		if expr.Escape != nil {
+			return nil, errors.New("LIKE ... ESCAPE is not supported, the escape character is the backslash")
+		}
 		return ParseInfixComparison(expr.Left, expr.Right, expr.Operator)
 	case *sqlparser.ParenExpr:
 		return ParseExpression(expr.Expr)
